@@ -37,7 +37,7 @@ static const size_t RZ = 16;
 #endif
 
 #ifdef HARNESS_OMP_STANDIN
-extern "C" void glv_omp_config(int mode, int maxthreads, uint64_t seed);
+extern "C" void glv_omp_config(int mode, int maxthreads, uint64_t seed, int cap);
 extern "C" uint64_t glv_omp_regions();
 extern "C" uint64_t glv_omp_members();
 #endif
@@ -117,6 +117,14 @@ struct Args {
         g_bufs.push_back(b);
         return b;
     }
+    // n plain words gathered into one buffer (an array of vector registers passed lane by lane)
+    Buf wbuf(size_t n) {
+        Buf b;
+        b.alloc(n);
+        for (size_t k = 0; k < n; k++) b.p[k] = w();
+        g_bufs.push_back(b);
+        return b;
+    }
     std::string s() {
         if (i >= t.size() || !t[i].isstr) { bad = true; return ""; }
         return t[i++].s;
@@ -181,11 +189,11 @@ static bool parse_line(const std::string &line, bool &forked, std::string &fn, A
     std::istringstream is(line);
     std::string tok;
     if (!(is >> fn)) return false;
-    if (fn[0] == '@') {   // "@<mode>:<maxthreads>:<seed>"  OpenMP stand-in configuration for this request (C12)
+    if (fn[0] == '@') {   // "@<mode>:<maxthreads>:<seed>[:<cap>]"  OpenMP stand-in configuration for this request (C12)
 #ifdef HARNESS_OMP_STANDIN
-        int mode = 0, mx = 4; unsigned long long sd = 1;
-        sscanf(fn.c_str() + 1, "%d:%d:%llx", &mode, &mx, &sd);
-        glv_omp_config(mode, mx, sd);
+        int mode = 0, mx = 4, cap = 0; unsigned long long sd = 1;
+        sscanf(fn.c_str() + 1, "%d:%d:%llx:%d", &mode, &mx, &sd, &cap);
+        glv_omp_config(mode, mx, sd, cap);
 #endif
         if (!(is >> fn)) return false;
     }
